@@ -56,6 +56,8 @@ RunOps(ops, bs, em) ==
                                          ELSE bs, em)
       [] o[1] = "delall"    -> RunOps(r, EmptyFn, em)
       [] o[1] = "mutprops"  -> RunOps(r, bs, em)
+      \* counts in the step properties and copies the count: properties are per execution, so the count is always 1
+      [] o[1] = "propcount" -> RunOps(r, Put(bs, o[2], Num(2)), em)
       [] o[1] = "fresh"     -> [oc |-> "ok", cls |-> "", bs |-> o[2], em |-> em, pem |-> em]
       [] o[1] = "retnull"   -> [oc |-> "null", cls |-> "", bs |-> EmptyFn, em |-> em, pem |-> em]
       [] o[1] = "nullif"    -> IF o[2] \in DOMAIN bs /\ bs[o[2]] = o[3]
